@@ -318,6 +318,14 @@ def kstep_sx(st):
     if st[0] == 13:
         # an existence filter (negated: 1) with blanks: (13, neg, blanks after `?(`, after `!`, before `)`, [inner steps])
         return '13 %d %d %d %d %s' % (1 if st[1] else 0, st[2], st[3], st[4], ' '.join('(%s)' % kstep_sx(x) for x in st[5]))
+    if st[0] == 14:
+        # a query in disjunctive form with blanks: (14, blanks after `?(`, [(blanks after `||`, [(blanks after `&&`, elem)])]);
+        # elem = ('e', neg, blanks after `!`, [inner steps], trailing blanks) | ('c', [inner steps], blanks before op, op, blanks after, literal cps, trailing blanks)
+        def selem(gap, e):
+            if e[0] == 'e':
+                return '(%d e %d %d %d %s)' % (gap, 1 if e[1] else 0, e[2], e[4], ' '.join('(%s)' % kstep_sx(x) for x in e[3]))
+            return '(%d c (%s) %d %d %d %d %s)' % (gap, ' '.join('(%s)' % kstep_sx(x) for x in e[1]), e[2], e[3], e[4], e[6], ' '.join(str(x) for x in e[5]))
+        return '14 %d ' % st[1] + ' '.join('(%d %s)' % (gc, ' '.join(selem(ge, e) for ge, e in conj)) for gc, conj in st[2])
     if st[0] == 8:
         # a comparison filter [?(@ inner OP number)]: (8, [inner steps], operator code 0..5, literal code points)
         return '8 (%s) %d %s' % (' '.join('(%s)' % kstep_sx(x) for x in st[1]), st[2], ' '.join(str(x) for x in st[3]))
